@@ -21,6 +21,7 @@ class AnalysisError(Exception):
 # EMBEDS: (parent, field) -> sub-struct.  Set when a fact file is loaded.
 ALIASES = {}
 EMBEDS = {}
+STRUCT_FIELDS = {}      # struct path -> field names in declaration order (for projecting a field out of a struct literal)
 _KNOWN_STRUCTS = None
 
 
@@ -87,6 +88,10 @@ class Facts:
         ALIASES.clear(); ALIASES.update(al)
         EMBEDS.clear(); EMBEDS.update(em)
         self.aliases, self.embeds = dict(al), dict(em)
+        STRUCT_FIELDS.clear()
+        for name_, a_ in self.adts.items():
+            if a_.get("kind") == "struct" and a_.get("variants"):
+                STRUCT_FIELDS[name_] = [x["name"] for x in a_["variants"][0]["fields"]]
         self.fns = {name: Fn(self, name, d) for name, d in self.raw["fns"].items()}
 
     def fn(self, name):
@@ -791,6 +796,8 @@ def simplify(t):
                 return base[1][int(t[3])]
             except (ValueError, IndexError):
                 return t
+        if base[0] == "agg" and base[1] == t[2] and t[2] in STRUCT_FIELDS and t[3] in STRUCT_FIELDS[t[2]] and len(base[3]) == len(STRUCT_FIELDS[t[2]]):
+            return base[3][STRUCT_FIELDS[t[2]].index(t[3])]       # a field of a struct literal
         if ALIASES and (t[2], t[3]) in ALIASES:
             P, role = ALIASES[(t[2], t[3])]
             if base[0] == "field" and EMBEDS.get((base[2], base[3])) == t[2]:
